@@ -31,23 +31,19 @@ ASSUMPTIONS = [
     'token, as it silently does after a `return`) is outside C14 (that is C07 / C08); such runs are compared with '
     'the model but not judged',
 ]
-PARTIAL = ('C14_reference_chunking / C14_reference_final_lf prove the chunking property of the reference tokenizer, and '
-           'C14_tokens_spec_partial states the token-level clause for the concrete stack against that tokenizer with the '
-           'constants computed; its one remaining hypothesis is the token-faithful echo of the lexer model (C06), which '
-           'C14_echo_predicate_suffices reduces to C06\'s own predicate holds_C06 on (text, echo) + no lone CR in the echo '
-           '(C14_tokens_spec_partial_c06). '
-           'The token-level clause (significant tokens of the result = header ++ package blocks ++ loader ++ main '
-           'tokens, package bodies intact apart from the stripped game-loop functions) is proved only RELATIVE to '
-           'hypotheses that are visible in the statements and not discharged for the concrete stack: '
-           'C14_tokens_partial / C14_tokens_partial_now assume the reference tokenizer\'s chunking property (a text '
-           'ending in a newline lexes independently of what follows; a final newline adds no token: C07\'s chunking '
-           'lemma) and the lexer\'s token-faithful echo (C06: the echoed text has the source\'s tokens); '
-           'C14_block_tokens_partial additionally assumes that the stripping step acts on significant tokens as the '
-           'removal of the game-loop definitions (unconditionally proved of the concrete stripping: it only removes '
-           'tokens, C14_strip_only_removes). The clause itself is checked on every run by the extracted monitor '
-           'holds_C14. C14_structure_bytes / C14_unstripped_block assume a BYTE-faithful echo, which picotool\'s '
-           'lexer has only for sources whose quoted strings are spelled canonically (C06: other strings are re-spelled '
-           'with the same denotation).')
+PARTIAL = ('The token-level clause is proved except for two residues. C14_tokens_spec_partial states it for the concrete '
+           'stack against the reference tokenizer with NO hypothesis about the lexer: the chunking of the reference '
+           'tokenizer (C14_reference_chunking / _final_lf, Proofs/SpecLexChunk.v) and the token-faithful echo of the lexer '
+           'model (C14_echo_views, from C06\'s model_holds_C06 / echo_crlf_only and C14_echo_predicate_suffices) are '
+           'theorems. Residue 1: a side condition on the line list handed to the final parse (every line but the last '
+           'ends in LF and is made of bytes) which fails when a package\'s last line has no newline (build.py then appends '
+           'a separate newline line; the lexer stack has no chunking lemma for that split). Residue 2: that the echoed '
+           'code of a STRIPPED package has the file\'s tokens minus its game-loop definitions is only proved relative to a '
+           'hypothesis (C14_block_tokens_partial); unconditionally proved is that stripping only removes tokens '
+           '(C14_strip_only_removes). Both are checked on every run by the extracted monitor holds_C14. '
+           'C14_structure_bytes / C14_unstripped_block assume a BYTE-faithful echo, which picotool\'s lexer has only for '
+           'sources whose quoted strings are spelled canonically (C06: other strings are re-spelled with the same '
+           'denotation).')
 CLAIM = dict(
     text=("Theorems (Coq, closed under the global context) about a model of build.py's _evaluate_require / "
           "RequireWalker / _prepend_package_lua, proved for EVERY lexer, parser, walker, name check, file map and load "
@@ -59,8 +55,11 @@ CLAIM = dict(
           "requirer, each a located+parsed+stripped file; cycles terminate), C14_errors* (walker exception / refused "
           "name / missing file => the build returns an error and no output), C14_terminates(_now) (1 + number of "
           "require strings is enough fuel; more fuel never changes the result), C14_dfs_exact (the search computes "
-          "exactly the fuel-free depth-first relation Run). The token-level clause is partial: C14_tokens_partial(_now) "
-          "and C14_block_tokens_partial prove it relative to named hypotheses about the lexer stack (see partial). Tie: correspondence of the extracted model (full lexer+parser+walker stack) with the real "
+          "exactly the fuel-free depth-first relation Run). Token-level clause: C14_reference_chunking (the reference "
+          "tokenizer lexes a text ending in LF independently of what follows), C14_echo_predicate_suffices / "
+          "C14_echo_views (the lexer model's echo has the source's token views) and C14_tokens_spec_partial (tokens of the "
+          "cart = preamble ++ blocks ++ loader ++ main's tokens, no lexer hypothesis left); partial only in two named "
+          "residues (see partial). Tie: correspondence of the extracted model (full lexer+parser+walker stack) with the real "
           "`p8tool build` on generated package graphs (code bytes of OUT.p8, error class), RequireWalker alone on "
           "every generated file, and the extracted instance predicate holds_C14 (Spec/ + Base/ only: reference "
           "tokenizer, token-level require / game-loop / load-path description written from the README) on the real "
